@@ -5,9 +5,10 @@ CONSTANTS
   MaxStmts = 5
   MaxDepth = 1
   MaxComp = 1
-  Kinds = {"asg", "del", "read", "mr", "try"}
+  Kinds = {"del", "read", "mr", "try"}
   HSh <- HShStar
   AsVars = FALSE
+  Pre <- PreAsg
   MaxWord = 6
   Dump = TRUE
 INVARIANT GenWellFormed
